@@ -288,7 +288,11 @@ def scan_path(p, tv: Typed, at, sink, start=0):
     for g, pol, ln in p.guards:
         events.append((ln, 0, "guard", (g, pol)))
     for e in p.effects[start:]:
-        if isinstance(e[-1], int):
+        if e[0] == "raise":
+            events.append((e[2], 1, "effect", e[:3]))
+        elif e[0] == "await" and len(e) > 3:
+            events.append((e[2], 1, "effect", e[:3]))
+        elif isinstance(e[-1], int):
             events.append((e[-1], 1, "effect", e))
     if p.ret is not None:
         events.append((10 ** 9, 2, "ret", p.ret))
